@@ -29,6 +29,10 @@ JSON_MUTATIONS = [
     ("unknown-format", lambda rng: {"type": "string", "format": rng.choice(["frobnicate", "regex", "uri", "idn-email", "json-pointer"])}, True),
     ("known-format", lambda rng: {"type": "string", "format": rng.choice(["date", "email", "uuid", "ipv4"])}, False),
     ("remote-ref", lambda rng: {"$ref": rng.choice(["http://example.com/s.json", "other.json#/x", "urn:x:y", "defs.json"])}, True),
+    ("remote-ref-local-fragment", lambda rng: {"$ref": rng.choice(["https://example.com/common.json#/$defs/a", "definitions.json#/$defs/a"]), "$defs": {"a": {"type": "string"}}}, True),
+    ("float-spelled-min-items", lambda rng: {"type": "array", "minItems": 1.0}, False),
+    ("float-spelled-min-length", lambda rng: {"type": "string", "minLength": 0.0, "maxLength": 2.0}, False),
+    ("float-spelled-min-contains", lambda rng: {"type": "array", "contains": {"type": "number"}, "minContains": 1.0}, False),
     ("dangling-ref", lambda rng: {"$ref": "#/$defs/doesNotExist"}, True),
     ("anchor-ref", lambda rng: {"$ref": "#anchor"}, True),
     ("unmergeable-exclusive", lambda rng: {"allOf": [{"exclusiveMinimum": 1}, {"exclusiveMinimum": 2}]}, True),
